@@ -398,6 +398,8 @@ def builtin_value(fr, name, args, kw, n):
     if name in ('any', 'all') and a0 is not None and a0[0] in ('list', 'tuple') and len(args) == 1 and not kw:
         ts = [fr.fold(x) for x in a0[1]]
         return T.or_(ts) if name == 'any' else T.and_(ts)         # any / all over an explicit sequence of conditions
+    if name == 'divmod' and len(args) == 2 and not kw:
+        return ('tuple', (T.floordiv(args[0], args[1]), T.mod(args[0], args[1])))         # divmod(a, b) is (a // b, a % b)
     if name == 'slice' and 1 <= len(args) <= 3 and not kw:
         lo, hi, st = (NONE, args[0], NONE) if len(args) == 1 else (args[0], args[1], args[2] if len(args) == 3 else NONE)
         return ('sl', lo, hi, st)                   # a slice object: x[slice(a, b)] is x[a:b]
@@ -1185,6 +1187,8 @@ def method(fr, recv, recv_node, name, args, kw, extra, n):
         return T.call('reshape', (recv,) + tuple(args), kw)
     if name == 'nonzero':
         return ('tuple', (T.call('flatnonzero', (recv,)),))
+    if name == 'ravel' and not args and not kw:
+        return method(fr, recv, recv_node, 'flatten', args, kw, extra, n)       # the same values in the same (C) order; only view-ness differs
     if name in ('any', 'all', 'sum', 'mean', 'min', 'max', 'argmax', 'argmin'):
         return T.call(name, (recv,) + tuple(args), kw)
     if name in ('imap', 'map', 'starmap', 'imap_unordered', 'apply_async', 'map_async', 'starmap_async', 'apply'):
